@@ -442,6 +442,12 @@ func New(tree ast.Tree, root string, logger logger.Logger) (*SpokFile, error) {
 	return &file, nil
 }
 
+// ExpandGlob expands a glob pattern from the directory the spokfile sits in and returns
+// the absolute paths of everything that currently matches, hidden files are ignored.
+func (s *SpokFile) ExpandGlob(pattern string) ([]string, error) {
+	return expandGlob(s.Dir, pattern)
+}
+
 // expandGlob expands out the glob pattern from root and returns all the matches,
 // the matches are made absolute before returning, root should be absolute.
 func expandGlob(root, pattern string) ([]string, error) {
